@@ -222,6 +222,16 @@ def getitem_replay():
     return replay
 
 
+def _op_state(op):
+    import copy
+
+    names = set(getattr(op, "__dict__", {}))
+    for c in type(op).__mro__:
+        names.update(s for s in getattr(c, "__slots__", ()) if hasattr(op, s))
+    st = {k: getattr(op, k) for k in sorted(names)}
+    return {k: (str(v), tuple(v.parts)) if hasattr(v, "parts") else copy.deepcopy(v) for k, v in st.items()}
+
+
 def patch_op_replay(clsname):
     def replay(inputs):
         import copy
@@ -249,7 +259,20 @@ def patch_op_replay(clsname):
 
         cls = getattr(pm, clsname)
         args = [] if clsname == "OpRemove" else [value]
-        got = run(lambda p, *a: cls(p, *a[:-1]).apply(a[-1]), *args)
+        frame = []
+
+        def real_apply(p, *a):
+            op = cls(p, *a[:-1])
+            before = _op_state(op)
+            try:
+                return op.apply(a[-1])
+            finally:
+                if _op_state(op) != before:
+                    frame.append(f"{clsname}.apply changed the operation itself: {before!r} -> {_op_state(op)!r}")
+
+        got = run(real_apply, *args)
+        if frame:
+            return frame[0] + f" (path parts={parts!r}, document {data!r})"
         want = run(getattr(jspec, specname), *args)
         if got != want:
             return f"{clsname}(path parts={parts!r}{', value=%r' % (value,) if args else ''}).apply({data!r}) {got[0]} {got[1]!r} but RFC 6902 {want[0]} {want[1]!r}"
@@ -316,3 +339,91 @@ def relative_candidates():
     tuples = [()] + [(t,) for t in toks] + [(s, t) for s in toks for t in toks] + [("a", "b", "c"), ("a", "bc", "d"), ("xs", 1), ("xs", 10, "k")]
     for a, b in itertools.product(tuples, repeat=2):
         yield {"self_parts": list(a), "other_parts": list(b)}
+
+
+# ---- C15: construction of a patch (document form vs builder form vs printed form)
+
+_BUILD_KINDS = {
+    "add": ("add", ("path", "value"), ("path", "value")),
+    "addne": ("addne", ("path", "value"), ("path", "value")),
+    "addap": ("addap", ("path", "value"), ("path", "value")),
+    "remove": ("remove", ("path",), ("path",)),
+    "replace": ("replace", ("path", "value"), ("path", "value")),
+    "move": ("move", ("from", "path"), ("from_", "path")),
+    "copy": ("copy", ("from", "path"), ("from_", "path")),
+    "test": ("test", ("path", "value"), ("path", "value")),
+}
+
+
+def _patch_outcome(fn):
+    pm = importlib.import_module("jsonpath.patch")
+    try:
+        return ("prints", fn().asdicts())
+    except Exception as e:  # noqa: BLE001
+        return ("raises", "JSONPatchError" if isinstance(e, pm.JSONPatchError) else type(e).__name__)
+
+
+def patch_build_replay(kind):
+    meth, members, kwnames = _BUILD_KINDS[kind]
+
+    def replay(inputs):
+        pm = importlib.import_module("jsonpath.patch")
+        ue, ud = bool(inputs.get("unicode_escape", True)), bool(inputs.get("uri_decode", False))
+        vals = {m: real(inputs[m]) for m in members}
+        d = {"op": kind, **vals}
+        doc = _patch_outcome(lambda: pm.JSONPatch([d], unicode_escape=ue, uri_decode=ud))
+        bld = _patch_outcome(lambda: getattr(pm.JSONPatch(unicode_escape=ue, uri_decode=ud), meth)(**{k: vals[m] for k, m in zip(kwnames, members)}))
+        if doc != bld:
+            return f"JSONPatch([{d!r}], unicode_escape={ue}, uri_decode={ud}) {doc[0]} {doc[1]!r} but JSONPatch(...).{meth}(...) {bld[0]} {bld[1]!r}"
+        if doc[0] == "prints":
+            got = doc[1]
+            if len(got) != 1 or got[0].get("op") != kind or set(got[0]) != {"op", *members} or ("value" in members and got[0]["value"] != vals["value"]):
+                return f"JSONPatch([{d!r}]).asdicts() == {got!r}: not the operation it was given"
+            again = _patch_outcome(lambda: pm.JSONPatch(got, unicode_escape=False, uri_decode=False))
+            if again != doc:
+                return f"JSONPatch([{d!r}]).asdicts() == {got!r}, which itself builds a patch that {again[0]} {again[1]!r}"
+        elif doc[1] != "JSONPatchError":
+            return f"JSONPatch([{d!r}]) raises {doc[1]}, not JSONPatchError"
+        return None
+
+    return replay
+
+
+def patch_build_candidates():
+    import itertools
+
+    texts = ["", "/a", "/a/0", "/a~1b", "/a%2Fb", "/%7E", "/\\u0041", "/\\u00e9", "a", "/a/-", "#/a", "/a b", "/~0"]
+    values = [1, "s", [1], {"k": [1]}, None]
+    for ue, ud in itertools.product((True, False), repeat=2):
+        for t, t2 in itertools.product(texts, texts[:6]):
+            for v in values[:2]:
+                yield {"unicode_escape": ue, "uri_decode": ud, "path": t, "from": t2, "value": v}
+
+
+def patch_build_missing_replay(kind, missing):
+    meth, members, kwnames = _BUILD_KINDS[kind]
+
+    def replay(inputs):
+        pm = importlib.import_module("jsonpath.patch")
+        ue, ud = bool(inputs.get("unicode_escape", True)), bool(inputs.get("uri_decode", False))
+        d = {"op": kind, **{m: real(inputs[m]) for m in members if m != missing}}
+        out = _patch_outcome(lambda: pm.JSONPatch([d], unicode_escape=ue, uri_decode=ud))
+        if out != ("raises", "JSONPatchError"):
+            return f"JSONPatch([{d!r}]) (no {missing!r} member) {out[0]} {out[1]!r}; expected JSONPatchError"
+        return None
+
+    return replay
+
+
+def patch_build_unknown_replay():
+    def replay(inputs):
+        pm = importlib.import_module("jsonpath.patch")
+        d = {"op": inputs["op"], "path": inputs["path"], "value": real(inputs["value"])}
+        if d["op"] in _BUILD_KINDS:
+            return None
+        out = _patch_outcome(lambda: pm.JSONPatch([d]))
+        if out != ("raises", "JSONPatchError"):
+            return f"JSONPatch([{d!r}]) {out[0]} {out[1]!r}; expected JSONPatchError for an unknown operation name"
+        return None
+
+    return replay
